@@ -273,6 +273,32 @@ func genDecimalDigits(r *rand.Rand, p, s int, class int) []byte {
 				d[p-s-2] = byte(r.Intn(10))
 			}
 		}
+	case 7: // the 9-digit groups of the wire encoding (aligned at the decimal point), each all-zero or not, most significant digit set
+		intg := p - s
+		bounds := []int{0}
+		if intg%9 != 0 {
+			bounds = append(bounds, intg%9)
+		}
+		for b := bounds[len(bounds)-1] + 9; b <= intg; b += 9 {
+			bounds = append(bounds, b)
+		}
+		if bounds[len(bounds)-1] != intg {
+			bounds = append(bounds, intg)
+		}
+		for b := intg + 9; b < p; b += 9 {
+			bounds = append(bounds, b)
+		}
+		if bounds[len(bounds)-1] != p {
+			bounds = append(bounds, p)
+		}
+		for k := 0; k+1 < len(bounds); k++ {
+			if r.Intn(2) == 0 {
+				for j := bounds[k]; j < bounds[k+1]; j++ {
+					d[j] = byte(r.Intn(10))
+				}
+			}
+		}
+		d[0] = byte(1 + r.Intn(9))
 	default:
 		for i := range d {
 			d[i] = byte(r.Intn(10))
@@ -430,7 +456,7 @@ func genCell(r *rand.Rand, c *Col, maxPayload int) []byte {
 		neg := r.Intn(2) == 0
 		return time2Encode(h, m, s, frac, c.P1, neg)
 	case "decimal":
-		digits := genDecimalDigits(r, c.P1, c.P2, r.Intn(7))
+		digits := genDecimalDigits(r, c.P1, c.P2, r.Intn(9))
 		neg := r.Intn(2) == 0
 		if allZero(digits) {
 			neg = false // there is no negative zero
